@@ -1498,6 +1498,48 @@ def plan_C02_full(tier):
     return qs, info
 
 
+# ---------------------------------------------------------------------------------------------
+# API-only reproduction search for a failed induction step (DESIGN 2.5): run only when a step query failed
+FN_TO_OPS = {"next": ["N"], "next_ensure": ["NE"], "go_into_object": ["GO"], "leave_object": ["LO"], "go_into_array": ["GA"],
+             "leave_array": ["LA"], "field": ["FS"], "field_with_length": ["F"], "field_ensure": ["FE"], "field_ensure_with_length": ["FE"],
+             "get_raw": ["RAW"], "parser_to_writer": ["TW"], "reset": ["RS"], "verify": ["VF"], "getters": ["N"]}
+REPRO_PROPSET = {"C01": 1, "C09": 9, "C16": 16, "C17": 17}
+
+
+def repro_queries(prop, fn_names, tier):
+    """arbitrary bytes, ops executed unconditionally (mode ANY): generic prefixes that put the parser into every kind of
+    position, then the function whose induction step failed, then one more call"""
+    propset = REPRO_PROPSET.get(prop)
+    if propset is None:
+        return []
+    prefixes = {1: [["GO"], ["GO", "N"], ["GO", "N", "GO"], ["GO", "N", "GA"], ["GO", "N", "N"], [], ["GO", "F"], ["GO", "N", "LO"]],
+                2: [["GA"], ["GA", "N"], ["GA", "N", "GA"], ["GA", "N", "GO"], ["GA", "N", "N"], [], ["GA", "N", "LA"]]}
+    qs, seen = [], set()
+    for fn in fn_names:
+        for op in FN_TO_OPS.get(fn, []):
+            for root in (1, 2):
+                for pre in prefixes[root]:
+                    if op in ("F", "FS", "FE") and root == 2 and "GO" not in pre:
+                        continue
+                    for suf in (["N"],):
+                        s = pre + [op] + suf
+                        for n, D in ((4, 1), (6, 2)):
+                            if (n, root) in ((4, 1),):
+                                continue
+                            key = (tuple(s), n, D, root)
+                            if key in seen or not s:
+                                continue
+                            seen.add(key)
+                            extra = {"NOALLOC": 1} if prop == "C17" else None
+                            q = script_query(propset, s, n, D, root, mode=3, J=None, checks="mem" if prop in ("C01", "C17") else "func",
+                                             timeout=900, extra=extra, witness=False)
+                            q.name = "repro." + q.name
+                            q.tags["family"] = "H-REPRO (API-only reproduction search after a failed induction step)"
+                            q.group = "h_script.repro"
+                            qs.append(q)
+    return qs
+
+
 PLANS = {"C01": plan_C01_full, "C02": plan_C02_full, "C03": plan_C03, "C04": plan_C04, "C05": plan_C05, "C06": plan_C06,
          "C07": plan_C07, "C08": plan_C08, "C09": plan_C09, "C10": plan_C10, "C11": plan_C11, "C12": plan_C12, "C13": plan_C13,
          "C14": plan_C14, "C16": plan_C16, "C17": plan_C17, "C18": plan_C18}
